@@ -64,10 +64,10 @@ pub open spec fn all_alloc<T>(h: Heap<T>) -> bool { h.alloc_iter && h.alloc_in_l
 #[verifier::external_body] pub fn fresh_heap<T>() -> (h: Heap<T>) ensures none_alloc(h) { unimplemented!() }
 pub open spec fn answered<T>(g: G<T>) -> nat { g.dn.data.len() + g.dn.terms }
 
-//@invpart order @C15 items are delivered in iterator order, the iterator is advanced once per item plus once to discover exhaustion
+//@invpart order @C15,C06 items are delivered in iterator order, the iterator is advanced once per item plus once to discover exhaustion
 //@invpart reent @C15 no delivery begins while an earlier one is in progress
-//@invpart demand @C14 never more answers than Pulls
-//@invpart answer @C14 in pullable mode every Pull is answered: at most the Pull being served is outstanding
+//@invpart demand @C14,C06 never more answers than Pulls
+//@invpart answer @C14,C06 in pullable mode every Pull is answered: at most the Pull being served is outstanding
 //@invpart term @C02 at most one termination; the flags agree with the link phase
 //@invpart safe @C17 the result slot is empty at every yield
 pub open spec fn inv_order<T>(h: Heap<T>, g: G<T>, c: Cap) -> bool {
